@@ -56,6 +56,11 @@ type runCfg struct {
 	maxRetries int
 	bundleThr  int
 	timeouts   bool // short teardown budget: timeouts may fire
+	// blind: the store applies a transaction's writes at Commit without write-conflict detection
+	// (last commit wins) — what badger does for blind writes. The in-memory database instead
+	// rejects a commit whose keys changed since the transaction began, which would mask two
+	// overlapping flush generations; correct code never overlaps them, so both modes agree on it.
+	blind bool
 }
 
 func (w *world) emit(inc int, tok string) bool {
@@ -86,10 +91,11 @@ type faultDB struct {
 }
 
 type faultTx struct {
-	db    *faultDB
-	inner database.Transaction
-	plan  string
-	hold  bool
+	db      *faultDB
+	inner   database.Transaction // nil in blind mode
+	changes map[string][]byte    // blind mode: writes applied at Commit
+	plan    string
+	hold    bool
 }
 
 type txKey struct{}
@@ -118,6 +124,10 @@ func (d *faultDB) NewTransaction(ctx context.Context, update bool) (database.Tra
 		w.holdCh = make(chan struct{})
 	}
 	w.mu.Unlock()
+	if w.cfg.blind {
+		ft := &faultTx{db: d, changes: map[string][]byte{}, plan: plan, hold: hold}
+		return ft, context.WithValue(ctx, txKey{}, ft), nil
+	}
 	tx, ctx2, err := d.inner.NewTransaction(ctx, update)
 	if err != nil {
 		return nil, ctx, err
@@ -137,6 +147,10 @@ func (d *faultDB) Set(ctx context.Context, key string, value []byte) error {
 			return errInjected
 		}
 	}
+	if ft, ok := ctx.Value(txKey{}).(*faultTx); ok && ft.changes != nil {
+		ft.changes[key] = value
+		return nil
+	}
 	return d.inner.Set(ctx, key, value)
 }
 
@@ -146,7 +160,11 @@ func (d *faultDB) GetKeys(ctx context.Context, prefix string) ([]string, error) 
 }
 func (d *faultDB) Close() error                   { return nil }
 func (d *faultDB) Ping(context.Context) error     { return nil }
-func (t *faultTx) Discard()                       { t.inner.Discard() }
+func (t *faultTx) Discard() {
+	if t.inner != nil {
+		t.inner.Discard()
+	}
+}
 
 func (t *faultTx) Commit() error {
 	w := t.db.w
@@ -167,7 +185,14 @@ func (t *faultTx) Commit() error {
 		w.log = append(w.log, "FC")
 		return errInjected
 	}
-	if err := t.inner.Commit(); err != nil {
+	if t.inner == nil {
+		for k, v := range t.changes {
+			if err := t.db.inner.Set(context.Background(), k, v); err != nil {
+				w.log = append(w.log, "FC")
+				return err
+			}
+		}
+	} else if err := t.inner.Commit(); err != nil {
 		w.log = append(w.log, "FC")
 		return err
 	}
